@@ -159,10 +159,21 @@ def resume_is_immediate(F, R, rule='B.C03.cmd'):
         if b.krate != 'kira' or not b.path.endswith('::resume') or 'andle' not in b.path:
             continue
         cs = [(bb, t) for bb, t in b.calls() if (callee_path(t) or '').endswith('::resume_at')]
-        if not cs:
-            continue
+        if cs:
+            d = describe(b, cs[0][1]['args'][1], depth=4, at=cs[0][0])
+        else:
+            # the command written directly (a private helper shared with `resume_at`, spliced in): the start time is the
+            # first half of the `(start_time, tween)` payload
+            from ..rules import feasible_paths
+            from ..paths import parse_term
+            ps = feasible_paths(b)
+            live = None if ps is None else set().union(*[set(x) for x in ps]) if ps else set()
+            cs = [(bb, t) for bb, t in b.calls() if (callee_path(t) or '') == 'command::CommandWriter::<T>::write' and (live is None or bb in live)]
+            if not cs:
+                continue
+            nm, args = parse_term(describe(b, cs[0][1]['args'][1], depth=8, at=cs[0][0]))
+            d = args[0] if nm == 'tuple' and args and len(args) == 2 else '%s(%s)' % (nm, args)
         n += 1
-        d = describe(b, cs[0][1]['args'][1], depth=4, at=cs[0][0])
         R.check(len(cs) == 1 and d == 'start_time::StartTime::Immediate', rule, 'resume-immediate:' + b.path.split('::')[-2].split('<')[0],
                 '%s resumes at %s, not at StartTime::Immediate' % (b.path, d[:60]), detail={'start': d[:60]}, where=b.file, nontrivial=False)
     R.floor(rule + '.resume-immediate', n, 4)
